@@ -138,7 +138,7 @@ def setup_worker(w):
     wt, vb = "/tmp/mut_w%d" % w, "/tmp/mut_v%d" % w
     if not os.path.isdir(wt):
         sh("git -C /repo worktree add -q --detach %s HEAD" % wt)
-    sh("git -C %s checkout -q --detach $(git -C /repo rev-parse HEAD); git -C %s checkout -- ." % (wt, wt))
+    sh("git -C %s checkout -q --detach $(git -C /repo rev-parse HEAD); git -C %s reset -q --hard; git -C %s clean -fdq -e target" % (wt, wt, wt))
     os.makedirs(vb, exist_ok=True)
     sh("rsync -a --exclude 'build/target*' --exclude 'build/cov' --exclude 'build/mut' --exclude '.git' --exclude evidence --exclude replays --exclude seeded --exclude preserving %s/ %s/" % (ROOT, vb))
     os.makedirs(vb + "/evidence", exist_ok=True)
